@@ -38,6 +38,10 @@ type Op struct {
 type Case struct {
 	Cap uint64
 	Ops []Op
+	// Fast: residency after each step is probed on ONE replica for all keys
+	// (a Get must not change residency, which is checked anyway) instead of one
+	// replica per key; used for long histories over many keys.
+	Fast bool
 }
 
 func (c *Case) Summary() string {
@@ -215,8 +219,15 @@ func oracle1(c *Case) (facts, error) {
 		// not perturb the recency order of the cache under test
 		now := map[uint64]bool{}
 		var total uint64
+		var shared *updog.LRUCache
+		if c.Fast {
+			shared = apply(c.Cap, c.Ops, bms, i+1)
+		}
 		for _, k := range keys {
-			rep := apply(c.Cap, c.Ops, bms, i+1)
+			rep := shared
+			if rep == nil {
+				rep = apply(c.Cap, c.Ops, bms, i+1)
+			}
 			got, ok := rep.Get(k)
 			if !ok {
 				continue
@@ -395,6 +406,30 @@ func drawCase(t *rapid.T) *Case {
 	return c
 }
 
+// drawMarathon: long histories over hundreds of keys with mostly small
+// entries, so that the cache holds many entries at once and its internal
+// tables grow and turn over many times.
+func drawMarathon(t *rapid.T, maxOps int) *Case {
+	c := &Case{Fast: true}
+	c.Cap = rapid.SampledFrom([]uint64{3000, 40000, 200000, 1 << 22, 1 << 63}).Draw(t, "cap")
+	nkeys := rapid.IntRange(100, 1200).Draw(t, "nkeys")
+	n := rapid.IntRange(maxOps/3, maxOps).Draw(t, "nops")
+	base := rapid.SampledFrom([]uint64{1, 1 << 32, 1<<64 - 2000}).Draw(t, "keybase")
+	for i := 0; i < n; i++ {
+		o := Op{Key: base + uint64(rapid.IntRange(0, nkeys-1).Draw(t, "key"))}
+		switch k := rapid.IntRange(0, 19).Draw(t, "op"); {
+		case k < 11:
+			o.Put = true
+			o.Shape = rapid.SampledFrom([]int{ShEmpty, ShArray, ShArray, ShArray, ShArray, ShMulti}).Draw(t, "shape")
+		case k == 11:
+			o.Put = true
+			o.Shape = ShBitmap
+		}
+		c.Ops = append(c.Ops, o)
+	}
+	return c
+}
+
 // ---------------------------------------------------------------- same object stored again after it grew
 
 // RePutCase: Put(k, bm); the caller adds values to bm; Put(k, bm) again with
@@ -521,6 +556,7 @@ func TestQuick(t *testing.T) {
 	}
 	fix.Check(t, "random", 3000, func(rt *rapid.T) { run(rt, drawCase(rt), "random") })
 	fix.Check(t, "reput", 300, func(rt *rapid.T) { runRePut(rt, drawRePut(rt)) })
+	fix.Check(t, "marathon", 6, func(rt *rapid.T) { run(rt, drawMarathon(rt, 1200), "marathon") })
 }
 
 func TestThorough(t *testing.T) {
@@ -532,6 +568,7 @@ func TestThorough(t *testing.T) {
 	}
 	fix.Check(t, "random", 100000, func(rt *rapid.T) { run(rt, drawCase(rt), "random") })
 	fix.Check(t, "reput", 3000, func(rt *rapid.T) { runRePut(rt, drawRePut(rt)) })
+	fix.Check(t, "marathon", 12, func(rt *rapid.T) { run(rt, drawMarathon(rt, 2500), "marathon") })
 }
 
 func TestReplay(t *testing.T) {
